@@ -243,3 +243,43 @@ class Facts:
 def load(scope="lib", repo=REPO):
     fdir, info = build_facts(scope, repo)
     return Facts(fdir, info)
+
+
+def load_fixtures():
+    """facts of the fixture crate (/verif/fixtures): positive / negative controls for the detectors"""
+    ensure_driver()
+    os.makedirs(BUILD, exist_ok=True)
+    fx_dir = os.path.join(VERIF, "fixtures")
+    h = hashlib.sha256()
+    for root, dirs, fs in os.walk(fx_dir):
+        dirs[:] = sorted(d for d in dirs if d != "target")
+        for f in sorted(fs):
+            if f.endswith(".rs") or f.endswith(".toml"):
+                with open(os.path.join(root, f), "rb") as fh:
+                    h.update(fh.read())
+    with open(DRIVER, "rb") as fh:
+        h.update(hashlib.sha256(fh.read()).digest())
+    nonce = "fixtures-" + h.hexdigest()[:20]
+    fdir = os.path.join(BUILD, "facts-fixtures", nonce)
+    stamp = os.path.join(fdir, "COMPLETE")
+    lock = open(os.path.join(BUILD, "lock-fixtures"), "w")
+    fcntl.flock(lock, fcntl.LOCK_EX)
+    try:
+        if not os.path.exists(stamp):
+            shutil.rmtree(os.path.join(BUILD, "facts-fixtures"), ignore_errors=True)
+            os.makedirs(fdir)
+            target = os.path.join(BUILD, "target-fixtures")
+            shutil.rmtree(os.path.join(target, "debug", ".fingerprint"), ignore_errors=True)
+            env = dict(os.environ)
+            env.update({"LD_LIBRARY_PATH": _sysroot() + "/lib", "RUSTFLAGS": "-Awarnings", "RUSTC_WRAPPER": DRIVER, "PSA_OUT": fdir,
+                        "PSA_CRATES": "psa_fixtures", "PSA_NONCE": nonce, "CARGO_TARGET_DIR": target, "CARGO_NET_OFFLINE": "true"})
+            env.pop("RUSTC_WORKSPACE_WRAPPER", None)
+            r = subprocess.run(["cargo", "+nightly", "check", "--offline"], cwd=fx_dir, env=env, stdout=subprocess.PIPE, stderr=subprocess.STDOUT, text=True)
+            if r.returncode != 0 or not any(n.startswith("psa_fixtures.") for n in os.listdir(fdir)):
+                shutil.rmtree(fdir, ignore_errors=True)
+                raise EngineError("cannot extract facts of the fixture crate:\n" + r.stdout[-2000:])
+            open(stamp, "w").write(nonce)
+    finally:
+        fcntl.flock(lock, fcntl.LOCK_UN)
+        lock.close()
+    return Facts(fdir, {"scope": "fixtures", "cached": True})
